@@ -88,57 +88,72 @@ func permutations(n int) [][]int {
 	return out
 }
 
+// schedByName builds a use order. Every node logs three times; whether a log
+// call carries call-site fields alternates per node (first use with fields ->
+// field-less -> with fields, or the opposite), so for every node a field-less
+// log is followed by a log with fields and vice versa. Which nodes start
+// field-less depends on the order: F all with fields, R all field-less, E
+// even nodes field-less (so children are derived right after a field-less log
+// and after a log with fields), L odd nodes field-less, perm: by position.
 func schedByName(steps []step, name string) (sched, bool) {
 	n := len(steps) + 1
 	var ev []event
+	firstCS := make([]bool, n)
 	deriveAll := func() {
 		for i := 1; i < n; i++ {
 			ev = append(ev, event{derive: true, node: i})
 		}
 	}
-	second := func(reverse bool) {
-		for k := 0; k < n; k++ {
-			j := k
-			if reverse {
-				j = n - 1 - k
+	first := func(j int, cs bool) {
+		firstCS[j] = cs
+		ev = append(ev, event{node: j, round: 1, cs: cs})
+	}
+	later := func(reverse bool) {
+		for round := 2; round <= 3; round++ {
+			for k := 0; k < n; k++ {
+				j := k
+				if reverse {
+					j = n - 1 - k
+				}
+				ev = append(ev, event{node: j, round: round, cs: firstCS[j] == (round == 3)})
 			}
-			ev = append(ev, event{node: j, round: 2})
 		}
 	}
 	switch {
 	case name == "F": // derive everything, then use in creation order
 		deriveAll()
 		for j := 0; j < n; j++ {
-			ev = append(ev, event{node: j, round: 1})
+			first(j, true)
 		}
-		second(false)
+		later(false)
 	case name == "R": // derive everything, then use in reverse order
 		deriveAll()
 		for j := n - 1; j >= 0; j-- {
-			ev = append(ev, event{node: j, round: 1})
+			first(j, false)
 		}
-		second(true)
+		later(true)
 	case name == "E": // every node is used before anything is derived from it
-		ev = append(ev, event{node: 0, round: 1})
+		first(0, false)
 		for i := 1; i < n; i++ {
-			ev = append(ev, event{derive: true, node: i}, event{node: i, round: 1})
+			ev = append(ev, event{derive: true, node: i})
+			first(i, i%2 == 1)
 		}
-		second(false)
+		later(false)
 	case name == "L": // a parent is first used right after its first child was derived: later children come after the first use
 		logged := make([]bool, n)
 		for i := 1; i < n; i++ {
 			ev = append(ev, event{derive: true, node: i})
 			if p := steps[i-1].parent; !logged[p] {
 				logged[p] = true
-				ev = append(ev, event{node: p, round: 1})
+				first(p, p%2 == 0)
 			}
 		}
 		for j := 0; j < n; j++ {
 			if !logged[j] {
-				ev = append(ev, event{node: j, round: 1})
+				first(j, j%2 == 0)
 			}
 		}
-		second(true)
+		later(true)
 	case strings.HasPrefix(name, "perm:"):
 		deriveAll()
 		seen := make([]bool, n)
@@ -146,15 +161,15 @@ func schedByName(steps []step, name string) (sched, bool) {
 		if len(parts) != n {
 			return sched{}, false
 		}
-		for _, p := range parts {
+		for pos, p := range parts {
 			j, err := strconv.Atoi(p)
 			if err != nil || j < 0 || j >= n || seen[j] {
 				return sched{}, false
 			}
 			seen[j] = true
-			ev = append(ev, event{node: j, round: 1})
+			first(j, pos%2 == 0)
 		}
-		second(false)
+		later(false)
 	default:
 		return sched{}, false
 	}
@@ -389,7 +404,7 @@ func main() {
 		"every entry is logged at Info (enabled in every family); the sampler's budget (first=2^30 per tick) is never exhausted",
 		"evaluation time/count of marshalers is demanded only where every serialising core is a byte encoder (json, console, sampler, hooked, increase-level, lazy): With = once, at derivation; WithLazy = once, at the first log through the logger or a descendant or the first With/WithOptions(Fields) chained on it. The observer keeps the Field unevaluated: there only field identity (Field.Equals + same marshaler pointer) is compared; in tee(json,observer) the JSON branch's value is compared but not the call count",
 		"Named, Sugar, Desugar and WithLazy on a lazy logger are not a 'use' (documented: evaluated only if chained with With or written to)",
-		"use orders: every permutation of first uses for <=3 nodes, else forward (F) and reverse (R) after all derivations; E = each node used before anything is derived from it; L = parent first used after its first child and before later children; every node logs a second time at the end",
+		"use orders: every permutation of first uses for <=3 nodes, else forward (F) and reverse (R) after all derivations; E = each node used before anything is derived from it; L = parent first used after its first child and before later children; every node then logs a second and a third time; per node the calls alternate between carrying call-site fields and being field-less (F starts with fields, R field-less, E/L/perm mixed by node index/position), so both successions field-less->with-fields and with-fields->field-less occur for every node, and in E children are derived right after a parent's field-less log (even parents) and after a log with fields (odd parents)",
 	}
 	run.Finish(map[string]any{
 		"states":                             len(states),
